@@ -120,6 +120,12 @@ pub enum InvalidSchemaError {
     )]
     ReservedTypeName(String),
 
+    #[error(
+        "Type \"{0}\" defines field \"{1}\" whose type or parameter type {2} has too many levels \
+        of nested lists, which is not supported."
+    )]
+    TooManyNestedLists(String, String, String),
+
     #[error("Type \"{0}\" claims to implement type \"{1}\" which is not defined in this schema.")]
     ImplementingNonExistentType(String, String),
 
